@@ -137,8 +137,16 @@ def run(chk):
         ["Y en-ueb-g2.ctb ;; " + trans.case_line("T", 0, match_text, 3), "Y en-ueb-g2.ctb ;; " + trans.case_line("B", 0, [ord(c) for c in ",! _4 ?is"], 4),
          "Y en-ueb-g2.ctb ;; " + trans.case_line("T", 0, match_text, 200, presence=12)],
     ]
+    # display part of a list compiled alone first (lou_charToDots / lou_dotsToChar), then the translation part, and the
+    # other way round, each from an empty cache: the mappings a rule contributes must not depend on which came first
+    gg = str(work / "G.utb")
+    paren = [40, 97, 41, 45, 98, 40, 41]
+    for disp in (trans.case_line("C", 0, paren, len(paren)), trans.case_line("D", 0, [0x8000 | 0x23, 0x8001, 0x8000 | 0x1c], 3)):
+        for tr in (trans.case_line("T", 0, paren, 40), trans.case_line("B", 0, [ord(c) for c in "(a)-b"], 40, presence=12)):
+            scenarios.append(["F", "Y %s ;; %s" % (gg, disp), "Y %s ;; %s" % (gg, tr)])
+            scenarios.append(["F", "Y %s ;; %s" % (gg, tr), "Y %s ;; %s" % (gg, disp)])
     for sc in scenarios:
-        pool += sc
+        pool += [c for c in sc if c != "F"]
     fresh = {}
     for exact in (1, 0):
         for c in pool:
